@@ -285,6 +285,10 @@ class Evaluator:
         et = self.elem.get(name)
         if et in ("f32", "f64", "pyf"):
             return z3.ArraySort(I, F)
+        if isinstance(et, str) and et.startswith("p:"):
+            # T**: an array of rows (read-only use: the row selected by an index is itself an array)
+            inner = unconst(et[2:])
+            return z3.ArraySort(I, z3.ArraySort(I, F if inner in ("f32", "f64") else I))
         return z3.ArraySort(I, I)
 
     def range_fact(self, t, ty, st):
@@ -425,7 +429,15 @@ class Evaluator:
         self.bounds(arr, idx, st, "read")
         ety = self.elem.get(arr, "py")
         if isinstance(ety, str) and ety.startswith("p:"):
-            raise EvalError("pointer-to-pointer array %s" % arr)
+            # a row of a T** parameter: registered as a read-only array of its own (its extent is not a parameter of
+            # any kernel: index obligations on rows are not generated, the row is listed as unchecked)
+            row = "%s[%s]" % (arr, str(idx).replace(" ", "").replace("\n", ""))
+            if row not in st.arrs:
+                st.arrs[row] = z3.Select(st.arrs[arr], idx)
+            self.elem[row] = unconst(ety[2:])
+            self.writable[row] = False
+            self.unchecked = set(getattr(self, "unchecked", ())) | {row}
+            return Val(IV(0), "ptr", row)
         t = z3.Select(st.arrs[arr], idx)
         if ety not in ("f32", "f64", "pyf"):
             r = type_range(ety)
